@@ -427,6 +427,10 @@ class AsyncClient(base_client.BaseClient):
                 await self.eio.disconnect(abort=True)
 
     async def _handle_event(self, namespace, id, data):
+        if not isinstance(data, list) or not data:
+            # (a string would be taken apart into an event name and arguments)
+            raise ValueError('The payload of an event is a list that starts '
+                             'with its name.')
         namespace = namespace or '/'
         self.logger.info('Received event "%s" [%s]', data[0], namespace)
         r = await self._trigger_event(data[0], namespace, *data[1:])
@@ -443,6 +447,9 @@ class AsyncClient(base_client.BaseClient):
                 packet.ACK, namespace=namespace, id=id, data=data))
 
     async def _handle_ack(self, namespace, id, data):
+        if not isinstance(data, list):
+            # (a string or an object would be taken apart into arguments)
+            raise ValueError('The payload of an acknowledgement is a list.')
         namespace = namespace or '/'
         self.logger.info('Received ack [%s]', namespace)
         callback = None
